@@ -219,6 +219,12 @@ func genStartFeed(rt *rapid.T, r *Run) (Op, bool) {
 	if len(r.W.Handles) > 1 {
 		op.H = rapid.IntRange(0, len(r.W.Handles)-1).Draw(rt, "sf.h")
 	}
+	if op.Arg["backfill"] == true && chance(rt, 50, "sf.from") {
+		// a start CAS the caller names: what is older is not replayed, what is written from now on is
+		// delivered whatever CAS it carries (*WithMeta writes may carry one below the start)
+		op.Arg["from"] = pick(rt, []string{"ofkey", "after", "before", "max"}, "sf.fromkind")
+		op.Arg["n"] = rapid.IntRange(0, 5).Draw(rt, "sf.n")
+	}
 	return op, true
 }
 
@@ -748,6 +754,14 @@ func genOp1(rt *rapid.T, w *World, pr *Profile) Op {
 		}
 		op.MetaCas = weighted(rt, mw, "meta.newcas")
 		op.X = genXattrSet(rt, 0, 2, false)
+		// the xattr blob of a *WithMeta call is stored as given: some values are valid, compact JSON
+		// that a decode / re-encode cycle would not reproduce (integers beyond 2^53, exponents,
+		// unsorted keys), to see that a later write naming another xattr leaves them byte-for-byte
+		for _, k := range sortedKeys(op.X) {
+			if chance(rt, 30, "meta.verbatim") {
+				op.X[k] = pick(rt, []string{`{"seq":9007199254740993}`, `{"b":1,"a":2}`, `{"z":{"y":1,"x":[1.0,1e2]}}`, `[18446744073709551615,1.50]`}, "meta.verbatim.v")
+			}
+		}
 		if kind == "SetWithMeta" {
 			op.JSON = rapid.Bool().Draw(rt, "meta.json")
 			if op.JSON {
@@ -887,4 +901,13 @@ func pickColl(rt *rapid.T, w *World, label string) int {
 		}
 	}
 	return pick(rt, live, label)
+}
+
+func sortedKeys(m map[string]string) []string {
+	out := make([]string, 0, len(m))
+	for k := range m {
+		out = append(out, k)
+	}
+	sort.Strings(out)
+	return out
 }
